@@ -5,12 +5,17 @@
 //! transaction) must get the verdict a fresh resolve_transaction in B gives.  Run twice: in a process in
 //! which the SYSTEM_CELL map is not set (every unit test) and after setup_system_cell_cache has run
 //! (every real node) — the map is a process-wide OnceLock, so this stream runs last.
-//! Property predicate only.
-use crate::Sink;
+//! The property predicate is evaluated on the implementation's answers; every evaluation is also written
+//! as a Coq case (group "recheck": the transaction, the two contexts restricted to the out points
+//! involved, the SYSTEM_CELL entries, what check and the fresh resolution answered) that the model
+//! coq/Tx/Recheck.v recomputes.  A smaller model-only stream consumes cells the SYSTEM_CELL map names
+//! (outside the property: system cells cannot be spent) to pin down which out points check skips.
+use crate::resolve::{cells_coq, classify_err, classify_ok, err_coq, op_coq, rtx_coq, tx_coq, Data, Ids, Op, St, TxSpec, RR};
+use crate::{Sink, G_RECHECK};
 use ckb_types::{
     bytes::Bytes,
     core::{
-        cell::{resolve_transaction, setup_system_cell_cache, CellChecker, CellMetaBuilder, CellProvider, CellStatus, HeaderChecker},
+        cell::{resolve_transaction, setup_system_cell_cache, CellChecker, CellMetaBuilder, CellProvider, CellStatus, HeaderChecker, ResolvedDep, SYSTEM_CELL},
         error::OutPointError,
         BlockBuilder, BlockView, Capacity, DepType, TransactionBuilder, TransactionView,
     },
@@ -19,7 +24,7 @@ use ckb_types::{
 };
 use hx_common::*;
 use serde_json::json;
-use std::collections::{HashMap, HashSet};
+use std::collections::{BTreeMap, BTreeSet, HashMap, HashSet};
 
 #[derive(Clone)]
 struct Prov {
@@ -57,6 +62,10 @@ struct World {
     plain: Vec<OutPoint>,
     user_groups: Vec<(OutPoint, Vec<OutPoint>)>,
     inputs: Vec<OutPoint>,
+    /// numbering of the transaction hashes for the Coq cases
+    ids: Ids,
+    /// every out point of the genesis-shaped block
+    sys_all: Vec<OutPoint>,
 }
 
 fn world() -> World {
@@ -88,7 +97,111 @@ fn world() -> World {
     }
     let inputs: Vec<OutPoint> = (0..6).map(|i| op(0x66, i)).collect();
     for i in &inputs { prov.cells.insert(i.clone(), (output(), Bytes::new())); }
-    World { genesis, prov, sys_code: vec![sys(1), sys(2), sys(3)], sys_groups: vec![OutPoint::new(tx1.hash(), 0), OutPoint::new(tx1.hash(), 1)], plain, user_groups, inputs }
+    let mut ids = Ids::new();
+    ids.add(90, tx0.hash());
+    ids.add(91, tx1.hash());
+    for tag in [0x11u8, 0x22, 0x66] { ids.add(tag as u64, Byte32::new([tag; 32])); }
+    let sys_all: Vec<OutPoint> = (0..6).map(sys).chain((0..2).map(|i| OutPoint::new(tx1.hash(), i))).collect();
+    World { genesis, prov, sys_code: vec![sys(1), sys(2), sys(3)], sys_groups: vec![OutPoint::new(tx1.hash(), 0), OutPoint::new(tx1.hash(), 1)], plain, user_groups, inputs, ids, sys_all }
+}
+
+// ---- what the implementation answered, and the same as a Coq case -------------------------------
+struct Obs {
+    rtx_a: RR,
+    re: Result<(), OutPointError>,
+    re_seen: Vec<Op>,
+    fresh: Result<(), OutPointError>,
+    fresh_ok: Option<(RR, Vec<Op>)>,
+}
+
+/// resolve in A (= the world's provider, nothing seen), then check and a fresh resolution in B
+fn observe(w: &World, tx: &TransactionView, b: &Prov, seen_b: &HashSet<OutPoint>) -> Result<Obs, String> {
+    let hc = AnyHeader;
+    let sorted = |s: &HashSet<OutPoint>| { let mut v: Vec<Op> = s.iter().map(|o| w.ids.un(o)).collect(); v.sort(); v };
+    let mut seen = HashSet::new();
+    let rtx = match resolve_transaction(tx.clone(), &mut seen, &w.prov, &hc) { Ok(r) => r, Err(e) => return Err(format!("context A does not resolve: {e:?}")) };
+    let mut s1 = seen_b.clone();
+    let re = rtx.check(&mut s1, b, &hc);
+    let mut s2 = seen_b.clone();
+    let fresh = resolve_transaction(tx.clone(), &mut s2, b, &hc);
+    Ok(Obs {
+        rtx_a: classify_ok(&rtx, &w.ids),
+        re,
+        re_seen: sorted(&s1),
+        fresh_ok: fresh.as_ref().ok().map(|r| (classify_ok(r, &w.ids), sorted(&s2))),
+        fresh: fresh.map(|_| ()),
+    })
+}
+
+/// what parse_dep_group_data would see in a cell's data
+fn data_class(w: &World, data: &Bytes) -> Data {
+    match OutPointVec::from_slice(data) {
+        Ok(v) if !data.is_empty() => Data::Group(v.into_iter().map(|o| w.ids.un(&o)).collect()),
+        _ => Data::Raw(1),
+    }
+}
+fn restrict(w: &World, p: &Prov, involved: &BTreeSet<Op>) -> BTreeMap<Op, St> {
+    let mut m = BTreeMap::new();
+    for o in involved {
+        let op = w.ids.op(o);
+        if p.dead.contains(&op) { m.insert(*o, St::Dead); } else if let Some((_, d)) = p.cells.get(&op) { m.insert(*o, St::Live(data_class(w, d))); }
+    }
+    m
+}
+/// the entries of the process-wide map, None when it is not set
+fn sys_coq(w: &World) -> String {
+    match SYSTEM_CELL.get() {
+        None => "None".into(),
+        Some(map) => {
+            let mut codes: Vec<Op> = vec![];
+            let mut groups: Vec<(Op, Vec<Op>)> = vec![];
+            for (dep, r) in map.iter() {
+                let key = w.ids.un(&dep.out_point());
+                match r {
+                    ResolvedDep::Cell(_) if dep.dep_type() == DepType::Code.into() => codes.push(key),
+                    ResolvedDep::Group(_, ms) if dep.dep_type() == DepType::DepGroup.into() => groups.push((key, ms.iter().map(|m| w.ids.un(&m.out_point)).collect())),
+                    // an entry whose kind does not fit its key is never produced by setup_system_cell_cache;
+                    // written under an impossible key so that the model would disagree
+                    _ => codes.push((u64::MAX, 0)),
+                }
+            }
+            codes.sort();
+            groups.sort();
+            format!("(Some (mkSys {} {}))", coq_list(&codes, op_coq), coq_list(&groups, |(g, ms)| format!("({}, {})", op_coq(g), coq_list(ms, op_coq))))
+        }
+    }
+}
+fn emit_case(w: &World, sink: &mut Sink, tx: &TransactionView, b: &Prov, seen_b: &HashSet<OutPoint>, also: &[OutPoint], obs: &Obs, desc: serde_json::Value) {
+    let spec = TxSpec {
+        inputs: tx.input_pts_iter().map(|o| w.ids.un(&o)).collect(),
+        deps: tx.cell_deps_iter().map(|d| (w.ids.un(&d.out_point()), d.dep_type() == DepType::DepGroup.into())).collect(),
+        hdeps: vec![], nwit: tx.witnesses().len(), outs: vec![], salt: 0,
+    };
+    // the out points involved: inputs, cell deps, the members their data lists, what was consumed
+    let mut involved: BTreeSet<Op> = spec.inputs.iter().cloned().chain(spec.deps.iter().map(|d| d.0)).collect();
+    for (o, _) in &spec.deps {
+        if let Some((_, d)) = w.prov.cells.get(&w.ids.op(o)) { if let Data::Group(ms) = data_class(w, d) { involved.extend(ms); } }
+    }
+    involved.extend(also.iter().chain(seen_b.iter()).map(|o| w.ids.un(o)));
+    let (a, bb, c) = match &obs.rtx_a { RR::Ok(a, b, c) => (a, b, c), _ => unreachable!() };
+    let seen_b_ops = { let mut v: Vec<Op> = seen_b.iter().map(|o| w.ids.un(o)).collect(); v.sort(); v };
+    let check_coq = match &obs.re { Ok(()) => format!("(Some (Ok {}))", coq_list(&obs.re_seen, op_coq)), Err(e) => format!("(Some (Err {}))", err_coq(&classify_err(e, &w.ids))) };
+    let fresh_coq = match (&obs.fresh, &obs.fresh_ok) {
+        (Ok(()), Some((RR::Ok(x, y, z), s))) => format!("(Some (Ok ({}, {})))", rtx_coq(x, y, z), coq_list(s, op_coq)),
+        (Err(e), _) => format!("(Some (Err {}))", err_coq(&classify_err(e, &w.ids))),
+        _ => unreachable!(),
+    };
+    // context B as the difference to A (B never has a live cell A does not have)
+    let (cells_a, cells_b) = (restrict(w, &w.prov, &involved), restrict(w, b, &involved));
+    let changed: Vec<(Op, &str)> = involved.iter().filter(|o| cells_a.get(o) != cells_b.get(o))
+        .map(|o| (*o, match cells_b.get(o) { Some(St::Dead) => "Dead", None => "Unknown", Some(St::Live(_)) => unreachable!("a cell changed its content") })).collect();
+    let coq = format!("mkRecheckCase {} {} [] {} {} {} {} {} {}", sys_coq(w), tx_coq(&spec), cells_coq(&cells_a),
+                      coq_list(&seen_b_ops, op_coq), coq_list(&changed, |(o, s)| format!("({}, {})", op_coq(o), s)), rtx_coq(a, bb, c), check_coq, fresh_coq);
+    let mut d = desc;
+    d["tx"] = json!({"inputs": spec.inputs, "cell_deps": spec.deps.iter().map(|(o, g)| json!({"out_point": o, "dep_group": g})).collect::<Vec<_>>()});
+    d["observed_check"] = json!(format!("{:?}", obs.re));
+    d["observed_fresh"] = json!(format!("{:?}", obs.fresh));
+    sink.case(G_RECHECK, coq, d);
 }
 
 fn gen_tx(w: &World, rng: &mut Rng) -> (TransactionView, Vec<OutPoint>) {
@@ -120,7 +233,6 @@ fn gen_tx(w: &World, rng: &mut Rng) -> (TransactionView, Vec<OutPoint>) {
 
 pub fn stream_recheck(seed: u64, n: u64, sink: &mut Sink) {
     let w = world();
-    let hc = AnyHeader;
     // the same cases in both phases
     let mut cases = vec![];
     let mut rng = crate::stream_rng(seed, "recheck");
@@ -132,38 +244,39 @@ pub fn stream_recheck(seed: u64, n: u64, sink: &mut Sink) {
             if !touched.is_empty() && !rng.chance(1, 8) { kill.push(rng.pick(&touched).clone()); } else { kill.push(rng.pick(&w.plain[..12]).clone()); }
         }
         let unknown = rng.chance(1, 10); // consumed long ago: not even known as dead
-        cases.push((ci, tx, kill, unknown));
+        // consumed by an earlier transaction of the same block / pool pass: still live in the provider, in seen_inputs
+        let in_seen = !unknown && rng.chance(1, 6);
+        cases.push((ci, tx, kill, unknown, in_seen));
     }
     for phase in ["SYSTEM_CELL unset", "SYSTEM_CELL set"] {
         if phase == "SYSTEM_CELL set" && setup_system_cell_cache(&w.genesis, &w.prov).is_err() {
             sink.violation("SYSTEM_CELL was already set in this process; the re-check stream needs to set it itself", json!({"stream": "recheck"}), None);
             return;
         }
-        for (ci, tx, kill, unknown) in &cases {
+        for (ci, tx, kill, unknown, in_seen) in &cases {
             if !sink.wanted("recheck", *ci) { continue; }
             sink.evaluations += 1;
             *sink.stats.entry(format!("recheck_cases ({phase})")).or_default() += 1;
             let desc = json!({"stream": "recheck", "index": ci, "seed": seed, "phase": phase, "cell_deps": tx.cell_deps().len(), "inputs": tx.inputs().len(),
-                              "consumed_in_between": kill.iter().map(|k| format!("{k}")).collect::<Vec<_>>(), "consumed_cells_unknown": unknown});
-            let r = crate::guarded(std::panic::AssertUnwindSafe(|| {
-                let mut seen = HashSet::new();
-                let rtx = match resolve_transaction(tx.clone(), &mut seen, &w.prov, &hc) { Ok(r) => r, Err(e) => return Some(format!("context A does not resolve: {e:?}")) };
-                let mut b = w.prov.clone();
-                for k in kill { if *unknown { b.cells.remove(k); } else { b.dead.insert(k.clone()); } }
-                let mut s1 = HashSet::new();
-                let re = rtx.check(&mut s1, &b, &hc);
-                let mut s2 = HashSet::new();
-                let fresh = resolve_transaction(tx.clone(), &mut s2, &b, &hc);
-                if re.is_ok() != fresh.is_ok() {
-                    return Some(format!("re-validation of the transaction resolved earlier answers {:?}, a fresh resolution in the same context answers {:?}", re, fresh.as_ref().map(|_| ()).map_err(|e| e.clone())));
+                              "consumed_in_between": kill.iter().map(|k| format!("{k}")).collect::<Vec<_>>(), "consumed_cells_unknown": unknown, "consumed_cells_in_seen_inputs": in_seen});
+            let mut b = w.prov.clone();
+            let mut seen_b: HashSet<OutPoint> = HashSet::new();
+            for k in kill { if *in_seen { seen_b.insert(k.clone()); } else if *unknown { b.cells.remove(k); } else { b.dead.insert(k.clone()); } }
+            let obs = crate::guarded(std::panic::AssertUnwindSafe(|| observe(&w, tx, &b, &seen_b)));
+            let r = obs.as_ref().map(|o| match o {
+                Err(what) => Some(what.clone()),
+                Ok(Obs { re, fresh, .. }) => {
+                    if re.is_ok() != fresh.is_ok() {
+                        return Some(format!("re-validation of the transaction resolved earlier answers {:?}, a fresh resolution in the same context answers {:?}", re, fresh));
+                    }
+                    if let Err(e) = &re {
+                        // the out point blamed must be one that is really gone
+                        let blamed = match e { OutPointError::Dead(o) | OutPointError::Unknown(o) => Some(o.clone()), _ => None };
+                        if let Some(o) = blamed { if !kill.contains(&o) { return Some(format!("re-validation blames {o}, which is live in that context")); } }
+                    }
+                    None
                 }
-                if let Err(e) = &re {
-                    // the out point blamed must be one that is really gone
-                    let blamed = match e { OutPointError::Dead(o) | OutPointError::Unknown(o) => Some(o.clone()), _ => None };
-                    if let Some(o) = blamed { if !kill.contains(&o) { return Some(format!("re-validation blames {o}, which is live in that context")); } }
-                }
-                None
-            }));
+            });
             match r {
                 None => sink.violation("panic in resolve_transaction / ResolvedTransaction::check", desc.clone(), None),
                 Some(Some(what)) if what.starts_with("context A") => sink.violation(&format!("generator defect: {what}"), desc.clone(), None),
@@ -173,7 +286,55 @@ pub fn stream_recheck(seed: u64, n: u64, sink: &mut Sink) {
                 }
                 Some(None) => {}
             }
+            // (thorough tier: the predicate runs on every case, the first 2400 are also written for the model)
+            if let Some(Ok(o)) = &obs { if *ci < 2400 { emit_case(&w, sink, tx, &b, &seen_b, kill, o, desc.clone()); } }
             if sink.samples.len() < 8 && *ci == 0 && phase == "SYSTEM_CELL set" { sink.samples.push(desc); }
+        }
+    }
+    stream_system_cell_consumed(seed, &w, &cases.iter().map(|c| c.1.clone()).collect::<Vec<_>>(), sink);
+}
+
+/// Model only (no predicate: on a real chain the cells SYSTEM_CELL names cannot be spent, the property
+/// does not speak about such contexts): one cell the map names is consumed in B.  check, the cached fresh
+/// resolution and the model must still answer alike case by case — this is what ties the model's choice
+/// of skipped out points (cached code cells, cached groups, members of the cached groups the
+/// transaction names) to the code.  Runs with SYSTEM_CELL set.
+fn stream_system_cell_consumed(seed: u64, w: &World, txs: &[TransactionView], sink: &mut Sink) {
+    let mut rng = crate::stream_rng(seed, "recheck-sys");
+    let code = |o: &OutPoint| CellDep::new_builder().out_point(o.clone()).dep_type(DepType::Code).build();
+    let group = |o: &OutPoint| CellDep::new_builder().out_point(o.clone()).dep_type(DepType::DepGroup).build();
+    let mk = |deps: Vec<CellDep>| TransactionBuilder::default().input(CellInput::new(w.inputs[0].clone(), 0)).output(output()).output_data(Bytes::new().pack()).cell_deps(deps).build();
+    let s = &w.sys_all; // s[0..6] = outputs of the first genesis transaction, s[6], s[7] = the two groups
+    // directed: (transaction, consumed cell)
+    let mut list: Vec<(TransactionView, OutPoint)> = vec![
+        (mk(vec![code(&s[1])]), s[1].clone()),                                   // cached code cell
+        (mk(vec![group(&s[7]), code(&s[4])]), s[4].clone()),                     // member of a cached group, also a plain code dep
+        (mk(vec![code(&s[4]), group(&s[7])]), s[4].clone()),
+        (mk(vec![code(&s[4])]), s[4].clone()),                                   // the same cell without the group: not skipped
+        (mk(vec![group(&s[6])]), s[6].clone()),                                  // cached group cell
+        (mk(vec![group(&s[6]), group(&w.user_groups[1].0)]), s[3].clone()),      // member of a cached group
+        (mk(vec![group(&s[6]), code(&s[4])]), s[4].clone()),                     // member of a cached group the transaction does not name
+        (mk(vec![code(&s[6])]), s[6].clone()),                                   // a cached group cell used as a code dep: key differs
+        (mk(vec![group(&s[7]), code(&s[5])]), s[5].clone()),                     // uncached system cell
+    ];
+    for (k, tx) in txs.iter().enumerate() { if k % 12 == 0 { list.push((tx.clone(), rng.pick(s).clone())); } }
+    for (k, (tx, gone)) in list.iter().enumerate() {
+        if !sink.wanted("recheck-sys", k as u64) { continue; }
+        for mode in ["dead", "unknown", "in seen_inputs"] {
+            let mut b = w.prov.clone();
+            let mut seen_b: HashSet<OutPoint> = HashSet::new();
+            match mode { "dead" => { b.dead.insert(gone.clone()); } "unknown" => { b.cells.remove(gone); } _ => { seen_b.insert(gone.clone()); } }
+            sink.evaluations += 1;
+            sink.count("recheck_system_cell_consumed (model only)");
+            let desc = json!({"stream": "recheck-sys", "index": k, "seed": seed, "phase": "SYSTEM_CELL set", "system_cell_consumed": format!("{gone}"), "how": mode});
+            match crate::guarded(std::panic::AssertUnwindSafe(|| observe(w, tx, &b, &seen_b))) {
+                None => sink.violation("panic in resolve_transaction / ResolvedTransaction::check", desc, None),
+                Some(Err(what)) => sink.violation(&format!("generator defect: {what}"), desc, None),
+                Some(Ok(o)) => {
+                    if o.re.is_ok() != o.fresh.is_ok() { sink.count("recheck_system_cell_consumed: check and fresh resolution differ (outside the hypothesis)"); }
+                    emit_case(w, sink, tx, &b, &seen_b, &[gone.clone()], &o, desc);
+                }
+            }
         }
     }
 }
